@@ -112,4 +112,9 @@ CHECKS = {
         thorough=dict(groups=[E("artifacts", "^TestC15Artifacts$"), E("bindings", "^TestC15Bindings$"), E("order", "^TestC15DeployOrder$"),
                               G("embedded-behaviour", "^(TestC01Stateful|TestC02Stateful|TestC04Stateful|TestC05Stateful|TestC06Stateful|TestC07Stateful|TestC09Stateful|TestC10Stateful|TestC11Stateful|TestC12Stateful|TestC14Roster|TestC14Signatures|TestC17Stateful|TestC19Main|TestC19EmitRandom|TestC20Reputation|TestC20Audit|TestC20NeoFSID|TestC20Config|TestC20Estimations)$", 300, 12, env=dict(VERIF_EMBEDDED=1), tests=20)]),
     ),
+    "C16": dict(
+        title="Contract upgrade is committee-gated, version-monotonic, data-preserving",
+        quick=dict(groups=[E("gate", "^TestC16Gate$", 4), E("window", "^TestC16Window$", 4), G("data", "^TestC16Data$", 150, 8)]),
+        thorough=dict(groups=[E("gate", "^TestC16Gate$", 4), E("window", "^TestC16Window$", 4), G("data", "^TestC16Data$", 3000, 16)]),
+    ),
 }
